@@ -163,12 +163,12 @@ class VThread:
             self.done = True
             self.parked_kind = "exit"
             sched.by_ident.pop(self.ident, None)
-            sched._back.release()
+            sched._leave(self)
 
 
 class Scheduler:
     def __init__(self, ctx: Ctx, world: World | None = None, *, horizon: int = 4000, hang_timeout: float = 20.0,
-                 fairness: int = 400, free_switch_choice: bool = True) -> None:
+                 fairness: int = 400, free_switch_choice: bool = True, costed_switches: bool = False) -> None:
         self.ctx = ctx
         self.world = world
         self.horizon = horizon
@@ -177,8 +177,11 @@ class Scheduler:
         self.free_switch_choice = free_switch_choice
         self.threads: list[VThread] = []
         self.by_ident: dict[int, VThread] = {}
-        self._back = _thread.allocate_lock()
-        self._back.acquire()
+        self._main = _thread.allocate_lock()  # the baton comes back to run() through this binary semaphore
+        self._main.acquire()
+        self.status: str | None = None
+        self.fatal: BaseException | None = None
+        self.costed_switches = costed_switches
         self.current: VThread | None = None
         self.steps = 0
         self.aborting = False
@@ -234,41 +237,122 @@ class Scheduler:
     def point(self, kind: str, enabled: Callable[[], bool] | None = None, deadline: float | None = None) -> bool:
         """Scheduling point of the calling controlled thread.  Returns True when resumed because the deadline was
         reached while ``enabled()`` was still false.  A call from an uncontrolled thread (the scheduler thread while it
-        builds the objects, or a thread being unwound) is a no-op when it would not block."""
+        builds the objects, or a thread being unwound) is a no-op when it would not block.
+
+        The scheduling decision is taken by the thread that holds the baton (exactly one thread runs at a time, so the
+        ``Ctx`` is never used concurrently); a real hand-off only happens when another thread is picked."""
         th = self.current_thread()
         if th is None or self.aborting:
-            if self.aborting and th is not None:
-                if enabled is None or enabled():
-                    return False
-                raise _Abort()
             if enabled is None or enabled():
-                return False
+                return False  # lets finally-blocks of an unwinding thread proceed when they can
+            if th is not None:
+                raise _Abort()
             raise HarnessError(f"uncontrolled thread would block at {kind!r}")
         th.parked_kind = kind
         th.enabled = enabled
         th.deadline = deadline
         th.points += 1
-        self._back.release()
-        th.go.acquire()
-        if self.aborting:
-            th.enabled = None
-            th.deadline = None
-            if enabled is None or enabled():
-                return False  # let finally-blocks of an unwinding thread proceed when they can
-            raise _Abort()
-        timed_out = False
-        if enabled is not None and not enabled():
-            timed_out = True  # only possible through the deadline
+        nxt = self._decide()
+        if nxt is not th:
+            if nxt is None:
+                self._main.release()  # the run is over (deadlock / horizon / fatal): give the baton back to run()
+            else:
+                nxt.go.release()
+            th.go.acquire()
+            if self.aborting:
+                th.enabled = None
+                th.deadline = None
+                if enabled is None or enabled():
+                    return False
+                raise _Abort()
+        timed_out = enabled is not None and not enabled()  # only possible through the deadline
         th.parked_kind = None
         th.enabled = None
         th.deadline = None
         return timed_out
 
-    # -- scheduler loop (called from the scheduler thread) -------------------------------------------------
-    def _wait_back(self) -> None:
-        if not self._back.acquire(timeout=self.hang_timeout):
-            _TAINTED.append(f"thread {self.current!r} did not reach a scheduling point within {self.hang_timeout}s")
-            raise HarnessHang(_TAINTED[-1])
+    def _leave(self, th: VThread) -> None:
+        """Called by a controlled thread that has finished (its last action)."""
+        if self.aborting:
+            self._main.release()
+            return
+        nxt = self._decide()
+        if nxt is None:
+            self._main.release()
+        else:
+            nxt.go.release()
+
+    # -- the scheduling decision (runs in whichever thread holds the baton) -----------------------------------
+    def _decide(self) -> VThread | None:
+        """Pick the next thread to run, or None when the run is over (``self.status`` says why)."""
+        try:
+            return self._decide_inner()
+        except BaseException as exc:  # DivergenceError / Pruned from ctx.choose: re-raised by run() in the scheduler thread
+            self.fatal = exc
+            self.status = "fatal"
+            return None
+
+    def _decide_inner(self) -> VThread | None:
+        while True:
+            alive = [t for t in self.threads if not t.done]
+            if not alive:
+                self.status = "ok"
+                return None
+            enabled = [t for t in alive if t.is_enabled()]
+            if enabled:
+                break
+            deadlines = [t.deadline for t in alive if t.deadline is not None]
+            if not deadlines:
+                self.status = "deadlock"
+                return None
+            self._set_clock(max(self.clock(), min(deadlines)))
+            self.clock_jumps += 1
+        cur = self.current
+        cur_enabled = cur is not None and cur in enabled
+        if cur_enabled:
+            order = [cur] + [t for t in enabled if t is not cur]
+        else:
+            order = enabled
+        i = 0
+        if len(order) > 1:
+            if cur_enabled and self._streak >= self.fairness:
+                # fairness: a thread that keeps running (a spinning event loop) must not starve the others forever
+                order = order[1:] + order[:1]
+                self.fair_yields += 1
+            elif self.explore:
+                if cur_enabled:
+                    i = self.ctx.choose(len(order), "preempt", costed=True)
+                    if i:
+                        self.preemptions += 1
+                elif cur is None and self.steps == 0:
+                    i = self.ctx.choose(len(order), "first", costed=False)
+                elif self.free_switch_choice:
+                    i = self.ctx.choose(len(order), "switch", costed=self.costed_switches)
+                    if i:
+                        self.free_switches += 1
+        nxt = order[i]
+        if nxt is cur:
+            self._streak += 1
+        else:
+            self._streak = 0
+        self.steps += 1
+        if self.steps > self.horizon:
+            self.status = "horizon"
+            return None
+        if self.keep_trace:
+            self.trace.append((nxt.index, nxt.parked_kind or "?"))
+        self.current = nxt
+        return nxt
+
+    # -- scheduler side (the thread that calls run()) ------------------------------------------------------
+    def _wait_main(self) -> None:
+        """Wait for the baton to come back; watchdog: no scheduling step for ``hang_timeout`` real seconds = hang."""
+        last = -1
+        while not self._main.acquire(timeout=self.hang_timeout):
+            if self.steps == last:
+                _TAINTED.append(f"thread {self.current!r} did not reach a scheduling point within {self.hang_timeout}s")
+                raise HarnessHang(_TAINTED[-1])
+            last = self.steps
 
     def run(self, *, explore: bool = True) -> str:
         """Schedule until every thread has exited ('ok'), nothing can run ('deadlock') or the horizon is hit
@@ -277,56 +361,19 @@ class Scheduler:
         _ACTIVE = self
         self.explore = explore
         self.install_clock()
-        while True:
-            alive = [t for t in self.threads if not t.done]
-            if not alive:
-                return "ok"
-            enabled = [t for t in alive if t.is_enabled()]
-            if not enabled:
-                deadlines = [t.deadline for t in alive if t.deadline is not None]
-                if not deadlines:
-                    return "deadlock"
-                self._set_clock(max(self.clock(), min(deadlines)))
-                self.clock_jumps += 1
-                continue
-            cur = self.current
-            cur_enabled = cur is not None and cur in enabled
-            if cur_enabled:
-                order = [cur] + [t for t in enabled if t is not cur]
-            else:
-                order = enabled
-            forced_yield = False
-            if cur_enabled and len(order) > 1 and self._streak >= self.fairness:
-                # fairness: a thread that keeps running (a spinning event loop) must not starve the others forever
-                order = order[1:] + order[:1]
-                forced_yield = True
-                self.fair_yields += 1
-            if len(order) > 1 and explore and not forced_yield:
-                if cur_enabled:
-                    i = self.ctx.choose(len(order), "preempt", costed=True)
-                    if i:
-                        self.preemptions += 1
-                elif self.free_switch_choice:
-                    i = self.ctx.choose(len(order), "switch", costed=False)
-                    if i:
-                        self.free_switches += 1
-                else:
-                    i = 0
-            else:
-                i = 0
-            nxt = order[i]
-            if nxt is cur:
-                self._streak += 1
-            else:
-                self._streak = 0
-            self.steps += 1
-            if self.steps > self.horizon:
-                return "horizon"
-            if self.keep_trace:
-                self.trace.append((nxt.index, nxt.parked_kind or "?"))
-            self.current = nxt
+        self.status = None
+        if self.current is not None and not self.current.done and not self.current.is_enabled():
+            pass
+        nxt = self._decide()
+        if nxt is not None:
             nxt.go.release()
-            self._wait_back()
+            self._wait_main()
+        if self.status == "fatal":
+            exc, self.fatal = self.fatal, None
+            assert exc is not None
+            raise exc
+        assert self.status is not None
+        return self.status
 
     def abort(self) -> None:
         """Unwind every thread that is still parked (one at a time) and restore the clock.  Idempotent."""
@@ -334,15 +381,15 @@ class Scheduler:
         try:
             self.aborting = True
             for t in self.threads:
-                guard = 0
-                while not t.done:
-                    guard += 1
-                    if guard > 10000:
-                        _TAINTED.append(f"thread {t!r} could not be unwound")
-                        raise HarnessHang(_TAINTED[-1])
+                if not t.done:
+                    if _TAINTED:
+                        raise HarnessHang(_TAINTED[-1])  # a thread is stuck for real: nothing can be unwound safely
                     self.current = t
                     t.go.release()
-                    self._wait_back()
+                    self._wait_main()
+                    if not t.done:
+                        _TAINTED.append(f"thread {t!r} could not be unwound")
+                        raise HarnessHang(_TAINTED[-1])
             for t in self.threads:
                 if t.real is not None:
                     t.real.join(self.hang_timeout)
@@ -673,8 +720,14 @@ class CThread:
 # shim module, install / uninstall
 
 
+_SHIM: types.ModuleType | None = None
+
+
 def make_shim() -> types.ModuleType:
     """A module object that is ``threading`` plus the controlled Lock / RLock / Event / Condition / Thread."""
+    global _SHIM
+    if _SHIM is not None:
+        return _SHIM
     shim = types.ModuleType("threading")
     shim.__dict__.update({k: v for k, v in _real_threading.__dict__.items() if not k.startswith("__")})
     shim.Lock = CLock  # type: ignore[attr-defined]
@@ -683,6 +736,7 @@ def make_shim() -> types.ModuleType:
     shim.Condition = CCondition  # type: ignore[attr-defined]
     shim.Thread = CThread  # type: ignore[attr-defined]
     shim.__vthreads_shim__ = True  # type: ignore[attr-defined]
+    _SHIM = shim
     return shim
 
 
